@@ -980,8 +980,13 @@ def reuse_buffer_out_of_scope(r):
     a, b = args[0]._impl, args[1]._impl
     pa = [tuple(x) for x in a._path[:-1]]
     pb = [tuple(x) for x in b._path[:-1]]
-    # a's enclosing block must be b's enclosing block or one of its ancestors
-    return pb[: len(pa)] != pa
+    # a's enclosing block must be b's enclosing block or one of its ancestors ...
+    if pb[: len(pa)] != pa:
+        return True
+    # ... and a must be declared before (the ancestor of) b in that block
+    ia = a._path[-1][1]
+    ib = b._path[len(pa)][1]
+    return not (ia < ib)
 
 
 def rewrite_expr_after_zero_trip_loop(r):
